@@ -531,6 +531,77 @@ def sim_process(fn):
             f"Definition loop_guard (max_loop_iterations : Z) (current_step : time) : bool := existsb (fun t => {guard}) (tl current_step).\n")
 
 
+SETTLED_WAIT = ("waiters = [asyncio.create_task(sim.progress.has_reached(await_time)), asyncio.create_task(sim.newer_step.wait())]",
+                "try:\n    await asyncio.wait(waiters, return_when='FIRST_COMPLETED', timeout=world.rt_factor)\nfinally:\n    for task in waiters:\n        task.cancel()",
+                'sim.newer_step.clear()', 'if world.rt_factor:\n    advance_progress(sim, world)')
+
+
+def next_step_settled(fn):
+    """one round of the while loop of next_step_settled: run is over / the next step is settled / wait (for which time)"""
+    body = strip_doc(fn.body)
+    if len(body) != 3 or ast.unparse(body[0]) != "sim.tqdm.set_postfix_str('await step')" or ast.unparse(body[2]) != 'return False': bail(fn, 'shape of next_step_settled')
+    w = body[1]
+    if not (isinstance(w, ast.While) and ast.unparse(w.test) == 'sim.progress.time.time < world.until' and not w.orelse and len(w.body) == 1): bail(w, 'while progress < until')
+    i = w.body[0]
+    if not (isinstance(i, ast.If) and ast.unparse(i.test) == 'sim.next_steps and sim.next_steps[0] == sim.progress.time' and len(i.body) == 1 and ast.unparse(i.body[0]) == 'return True'): bail(i, 'settled test')
+    e = i.orelse
+    if len(e) != 6: bail(i, 'waiting branch')
+    if ast.unparse(e[0]) != 'await_time = TieredTime(world.until) + sim.from_world_time': bail(e[0], 'await_time')
+    if ast.unparse(e[1]) != 'if sim.next_steps and sim.next_steps[0] < await_time:\n    await_time = sim.next_steps[0]': bail(e[1], 'await_time capped by the queue')
+    for k, want in enumerate(SETTLED_WAIT):
+        if ast.unparse(e[2 + k]) != want: bail(e[2 + k], 'wait for progress or a newer step')
+    return ("(* scheduler.next_step_settled: one round of its loop (what is awaited: progress reaching await_time, or the newer_step flag, which is cleared afterwards) *)\n"
+            "Definition next_step_settled_round (progress : time) (next_steps : list time) (until : Z) (from_world_time : interval) : settle :=\n"
+            "  if negb (thd progress <? until) then SettleDone else\n"
+            "  match heap0 next_steps with\n"
+            "  | Some head =>\n"
+            "      if teq head progress then Settled head else\n"
+            "      let await_time := act [until] from_world_time in\n"
+            "      let await_time := if tlt head await_time then head else await_time in\n"
+            "      SettleWait await_time\n"
+            "  | None => SettleWait (act [until] from_world_time)\n"
+            "  end.\n")
+
+
+NOTIFY = ("for (eid, attr), triggered in sim.triggers.items():\n"
+          "    if attr in sim.data.get(eid, {}):\n"
+          "        for dest_sim, delay in triggered:\n"
+          "            step_time = sim.output_time + delay\n"
+          "            if until is None or step_time.time < until:\n"
+          "                dest_sim.schedule_step(step_time)")
+
+
+def notify_dependencies(fn):
+    """scheduler.notify_dependencies: the loops are walked one by one (the scheduler always passes until, see sim_process)"""
+    if [a.arg for a in fn.args.args] != ['sim', 'until']: bail(fn, 'signature')
+    body = strip_doc(fn.body)
+    if len(body) != 1: bail(fn, 'one loop over sim.triggers')
+    lo = body[0]
+    if not (isinstance(lo, ast.For) and ast.unparse(lo.target) == '((eid, attr), triggered)' and ast.unparse(lo.iter) == 'sim.triggers.items()' and not lo.orelse and len(lo.body) == 1): bail(lo, 'loop over triggers')
+    c = lo.body[0]
+    if not (isinstance(c, ast.If) and ast.unparse(c.test) == 'attr in sim.data.get(eid, {})' and not c.orelse and len(c.body) == 1): bail(c, 'was the attribute produced')
+    li = c.body[0]
+    if not (isinstance(li, ast.For) and ast.unparse(li.target) == '(dest_sim, delay)' and ast.unparse(li.iter) == 'triggered' and not li.orelse and len(li.body) == 2): bail(li, 'loop over the triggered simulators')
+    a, g = li.body
+    if ast.unparse(a) != 'step_time = sim.output_time + delay': bail(a, 'step time')
+    if not (isinstance(g, ast.If) and not g.orelse and len(g.body) == 1 and ast.unparse(g.body[0]) == 'dest_sim.schedule_step(step_time)'): bail(g, 'schedule_step call')
+    t = g.test
+    if not (isinstance(t, ast.BoolOp) and isinstance(t.op, ast.Or) and len(t.values) == 2 and ast.unparse(t.values[0]) == 'until is None'): bail(g, 'until test')
+    cmpz = t.values[1]
+    if not (isinstance(cmpz, ast.Compare) and len(cmpz.ops) == 1 and ast.unparse(cmpz.left) == 'step_time.time' and ast.unparse(cmpz.comparators[0]) == 'until'): bail(g, 'until test')
+    op = {ast.Lt: '<?', ast.LtE: '<=?', ast.Gt: '>?', ast.GtE: '>=?'}.get(type(cmpz.ops[0]))
+    if op is None: bail(g, 'comparison')
+    return ("(* scheduler.notify_dependencies (until is always given by sim_process); data = the ports (entity, attribute) present in the reply;\n"
+            "   schedule is SimRunner.schedule_step (tie_schedule_step) *)\n"
+            "Definition notify_dependencies (until : Z) (triggers : list (nat * list (nat * interval))) (data : list nat) (output_time : time) (s : state) : state :=\n"
+            "  fold_left (fun s (p : nat * list (nat * interval)) => let '(port, triggered) := p in\n"
+            "    if existsb (Nat.eqb port) data then\n"
+            "      fold_left (fun s (dd : nat * interval) => let '(dest_sim, delay) := dd in\n"
+            "        let step_time := act output_time delay in\n"
+            f"        if (thd step_time {op} until) then schedule s dest_sim step_time else s) triggered s\n"
+            "    else s) triggers s.\n")
+
+
 def tt_expr(e):
     """the constructor expressions used when a SimRunner is made and when a step is queued from outside the scheduler"""
     import re
@@ -612,14 +683,14 @@ def main():
     repo, outdir = sys.argv[1], sys.argv[2]
     tree = ast.parse(open(os.path.join(repo, 'mosaik', 'scheduler.py')).read())
     fns = {n.name: n for n in tree.body if isinstance(n, (ast.FunctionDef, ast.AsyncFunctionDef))}
-    for name in ('get_max_advance', 'advance_progress', 'wait_for_dependencies', 'step', 'get_outputs', 'sim_process'):
+    for name in ('get_max_advance', 'advance_progress', 'wait_for_dependencies', 'step', 'get_outputs', 'sim_process', 'next_step_settled', 'notify_dependencies'):
         if name not in fns: raise Unsupported(f'function {name} not found')
     ptree = ast.parse(open(os.path.join(repo, 'mosaik', 'progress.py')).read())
     out = ["(* generated by harness/py2coq_sched.py from mosaik/scheduler.py and mosaik/progress.py -- do not edit; regenerated on every run *)",
            "From Coq Require Import ZArith List Bool Arith.", "Import ListNotations.", "From MV Require Import Time.Spec Sched.Timing Sched.GenView.", "Open Scope Z_scope.", "",
            get_max_advance(fns['get_max_advance']), advance_progress(fns['advance_progress']), progress_class(ptree), wait_for_dependencies(fns['wait_for_dependencies']),
            schedule_step(ast.parse(open(os.path.join(repo, 'mosaik', 'simmanager.py')).read())),
-           step_reply(fns['step']), output_time_rule(fns['get_outputs']), sim_process(fns['sim_process']),
+           step_reply(fns['step']), output_time_rule(fns['get_outputs']), sim_process(fns['sim_process']), next_step_settled(fns['next_step_settled']), notify_dependencies(fns['notify_dependencies']),
            runner_setup(ast.parse(open(os.path.join(repo, 'mosaik', 'simmanager.py')).read()), ast.parse(open(os.path.join(repo, 'mosaik', 'scenario.py')).read()))]
     text = '\n'.join(out)
     path = os.path.join(outdir, 'SchedulerFns.v')
